@@ -625,7 +625,16 @@ class Interp:
         cls_name = obj.cls_name if isinstance(obj, Obj) else obj.cls if isinstance(obj, EnumVal) else None
         if cls_name is None or not self.repo.has_cls(cls_name):
             return None
-        return self.repo.lookup_method(self.repo.cls(cls_name), name)
+        c = self.repo.cls(cls_name)
+        m = self.repo.lookup_method(c, name)
+        if m is not None and m.cls is not None:
+            # a class-level value of the same name in a more derived class (`name = property(getter)`) shadows an inherited def
+            for k in self.repo.mro(c):
+                if k is m.cls:
+                    break
+                if name in k.attrs:
+                    return None
+        return m
 
     def getattr(self, obj, name, func, depth):
         if isinstance(obj, EnumVal):
@@ -1304,6 +1313,12 @@ class Interp:
                 return ("bound", mod.funcs[n.id], None)
             if mod is not None and n.id in mod.assigns:
                 return self.static_value(mod.assigns[n.id], func, depth)
+            if func is not None and func.name == "<cls>" and func.cls is not None and func.parent is None:
+                # a name used in a class body: earlier definitions of that body are in scope
+                if n.id in func.cls.methods:
+                    return ("rawfn", func.cls.methods[n.id])
+                if n.id in func.cls.attrs:
+                    return self.static_value(func.cls.attrs[n.id], func, depth)
             if mod is not None and n.id in mod.imports and mod.imports[n.id][0] in ("re", "math", "hashlib", "itertools", "string") \
                     and mod.imports[n.id][1] is None:
                 return ("pymodule", mod.imports[n.id][0])
@@ -1519,6 +1534,27 @@ class Interp:
                 except IndexError:
                     raise Raised("IndexError")
             raise Uninterpretable(f"subscript on {type(o).__name__}")
+        if t is ast.GeneratorExp and len(n.generators) == 1:
+            src0 = self.eval(n.generators[0].iter, env, func, depth)
+            if isinstance(src0, (_Endless, _SteppedGen)):
+                # a generator expression over an endless iterator stays lazy: elements are computed as they are drawn
+                g0 = n.generators[0]
+
+                def draw(i, src0=src0, g0=g0):
+                    for _ in range(100000):
+                        e2 = dict(env)
+                        self.assign(g0.target, src0.next_item(), e2, func, depth)
+                        if all(self.truth(self.eval(c, e2, func, depth)) for c in g0.ifs):
+                            return self.eval(n.elt, e2, func, depth)
+                    raise Uninterpretable("filtered endless generator expression")
+                return _Endless(draw)
+            out = []
+            for v in self.iterate(src0):
+                e2 = dict(env)
+                self.assign(n.generators[0].target, v, e2, func, depth)
+                if all(self.truth(self.eval(c, e2, func, depth)) for c in n.generators[0].ifs):
+                    out.append(self.eval(n.elt, e2, func, depth))
+            return _Gen(out)
         if isinstance(n, (ast.ListComp, ast.GeneratorExp, ast.SetComp)):
             out = []
             self._comp(n.generators, 0, env, func, depth, lambda e: out.append(self.eval(n.elt, e, func, depth)))
@@ -1949,6 +1985,8 @@ class Interp:
                     return lambda *xs, **kw: self.apply(a, list(xs), kw, func, depth)
                 if isinstance(a, ClassTok) and self.is_enum_class(a.name):
                     return self.iterate(a)
+                if isinstance(a, (_Endless, _SteppedGen)):
+                    return a.lazy()  # library code draws from it lazily, as it would from the real iterator
                 if isinstance(a, _Gen):
                     return list(a.take())
                 if isinstance(a, SetVal) and SetVal.reverse_iteration:
@@ -2283,8 +2321,8 @@ class Interp:
         if name == "cast":
             return args[1]
         if name == "map":
-            cols = [self.iterate(a) for a in args[1:]]
-            return _Gen([self.apply(args[0], list(xs), {}, func, depth) for xs in zip(*cols)])
+            rows = self.builtin("zip", list(args[1:]), {}, func, depth) if len(args) > 2 else [(x,) for x in self.iterate(args[1])]
+            return _Gen([self.apply(args[0], list(xs), {}, func, depth) for xs in rows])
         if name in ("deepcopy", "copy"):
             def dc(o, memo, deep):
                 if id(o) in memo:
@@ -2337,7 +2375,7 @@ class Interp:
         if name == "astuple":
             return tuple(args[0].fields[k] for k in args[0].fields["__dataclass_fields__"])
         if name == "islice":
-            if isinstance(args[0], _SteppedGen):
+            if isinstance(args[0], (_SteppedGen, _Endless)):
                 sl = slice(*args[1:])
                 if sl.stop is None:
                     raise Uninterpretable("islice without a stop on an endless generator")
@@ -2366,11 +2404,14 @@ class Interp:
             for x in seq:
                 acc = self.apply(args[0], [acc, x], {}, func, depth)
             return acc
-        if name == "count":
-            return _Gen(range(args[0] if args else 0, (args[0] if args else 0) + 10000))
         if name == "repeat":
-            # an endless repeat is cut at a length no consumer here reaches (zip stops at the shorter operand)
-            return _Gen([args[0]] * (args[1] if len(args) > 1 else 10000))
+            if len(args) > 1 or "times" in kwargs:
+                return _Gen([args[0]] * (args[1] if len(args) > 1 else kwargs["times"]))
+            return _Endless(lambda i, v=args[0]: v)
+        if name == "count":
+            a0 = args[0] if args else kwargs.get("start", 0)
+            st_ = args[1] if len(args) > 1 else kwargs.get("step", 1)
+            return _Endless(lambda i, a0=a0, st_=st_: a0 + i * st_)
         if name == "zip_longest":
             import itertools as _it
             return list(_it.zip_longest(*[self.iterate(a) for a in args]))
@@ -2505,6 +2546,35 @@ class _Gen:
 
 class _Exhausted(Exception):
     pass
+
+
+class _Endless(_Gen):
+    """itertools.repeat(x) / count(): an endless one-shot iterator; the next element is a function of how many were drawn.
+    Consumers that stop on another operand (zip, map with several iterables, islice, next) draw what they need; draining it
+    is refused."""
+
+    LIMIT = 200000
+
+    def __init__(self, item_at):
+        self.items = []
+        self._item_at = item_at
+        self._i = 0
+
+    def next_item(self):
+        if self.items:
+            return self.items.pop(0)
+        if self._i > self.LIMIT:
+            raise Uninterpretable("endless iterator drawn beyond the bound")
+        v = self._item_at(self._i)
+        self._i += 1
+        return v
+
+    def take(self):
+        raise Uninterpretable("an endless iterator (repeat / count) is drained")
+
+    def lazy(self):
+        while True:
+            yield self.next_item()
 
 
 class _GenClosed(BaseException):
